@@ -113,6 +113,13 @@ def batch_exports(max_n, lo, hi, seed, per_model):
                 seen = {}
                 attrs = [a for a in attrs if seen.setdefault(a[1], type(a[2])) is type(a[2])]
                 cases.append(([rnd.choice(pool) for _ in range(rnd.randint(1, 2))], None, attrs))
+            if n >= 2:      # names that contain one another / pieces of the connective words / case variants (lists of C10)
+                from .c10 import pick_names, _ren
+                nm = pick_names('clafer', rnd.randrange(1000), n)
+                mp = {'F%d' % i: nm[i] for i in range(n)}
+                tr = [_ren(rnd.choice(pool), mp)] if pool and rnd.random() < 0.7 else []
+                at = [(rnd.randrange(n), nm[-1] + 'q', 3), (rnd.randrange(n), nm[0] + nm[-1], True)] if rnd.random() < 0.5 else None
+                cases.append((tr, nm, at))
             for trees, nm, attrs in cases:
                 res['instances'] += 1
                 res['programs'] += 1
@@ -165,7 +172,7 @@ def batches(tier, seed):
     N = 4 if tier == 'quick' else 5
     total = len([s for s in R.shapes(N) if in_fragment_shape(s)])
     step = total // 12 + 1
-    b = [('batch_exports', [N, lo, lo + step, seed + lo, 1 if tier == 'quick' else 3]) for lo in range(0, total, step)]
+    b = [('batch_exports', [N, lo, lo + step, seed + lo, 3 if tier == 'quick' else 6]) for lo in range(0, total, step)]
     b.append(('batch_ops_and_names', [seed]))
     return b
 
@@ -175,7 +182,8 @@ def info(tier):
         'assumptions': ['Clafer fragment: every feature has only mandatory/optional single children or exactly one group (xor / or / mux / a..b)',
                         'the export is a program interpreted by fmverif/props/interp.py clafer2z3 (indentation hierarchy, group prefix, ?, abstract root + instance, [attr = v], [constraints] with && || => <=> not xor)',
                         'the 2^n selections are decided by one z3 query per program; identifier consistency is checked on the parsed declarations / uses',
-                        'attribute values bool/int/float/str; one value type per attribute name'],
+                        'attribute values bool/int/float/str; one value type per attribute name',
+                        'names: placeholders F0..Fn and, per (shape, cards), one list of identifier-like names that contain one another, are pieces of connective words or differ by case / underscore; identifiers that need quoting in a separate batch; Clafer keywords as names are outside the claim'],
         'coverage': {'functions_encoded': ['ClaferWriter.transform', 'clafer_writer.fm_to_clafer/read_features/read_feature_attributes/parse_group_type/read_constraints/serialize_constraint/attributes_definition/parse_type_value/safename'],
                      'bounds': {'shapes': 'N<=%d within the fragment' % (4 if tier == 'quick' else 5), 'constraints': '1-2 trees of depth<=1 per model + sampled depth-2 trees'},
                      'stubs': []},
